@@ -31,7 +31,7 @@ BUDGET = {
     "quick": dict(examples=1200, shards=16, seconds=200),
     "thorough": dict(examples=12000, shards=16, seconds=2400),
 }
-ESSENTIAL_LABELS = {t: ["object-clause", "has:frac", "has:Q", "has:pop", "has:do", "frac-with-product-denominator"] for t in ("quick", "thorough")}
+ESSENTIAL_LABELS = {t: ["object-clause", "has:frac", "has:Q", "has:pop", "has:do", "frac-with-product-denominator", "has:mixed-worlds"] for t in ("quick", "thorough")}
 
 REGION_POP = "population_not_in_parser_table"
 
@@ -40,7 +40,7 @@ REGION_POP = "population_not_in_parser_table"
 def _case(draw):
     depth = draw(st.sampled_from([1, 2, 2, 3, 3, 4]))
     fam = draw(st.integers(0, 2))
-    spec = draw(exprgen.expr_specs(depth=depth, names=NAMES, q=True, zero=fam == 0, one=fam != 2))
+    spec = draw(exprgen.expr_specs(depth=depth, names=NAMES, q=True, zero=fam == 0, one=fam != 2, mixed_worlds=True))
     return {"spec": spec, "mseed": draw(st.integers(0, 2**32))}
 
 
